@@ -168,18 +168,29 @@ func c13Calls() []c13Case {
 	tc("msg", nl(1), nl(2), sl("message"))
 	tc("msg-fmt", nl(1), nl(2), sl("got %v of %q"), nl(2), sl("x"))
 	tc("msg-nonstring", nl(1), nl(2), nl(3))
+	for k, m := range []string{"100% sure", "%d", "rate %v of %q %", "%", "%%", "%s%s", "a\nb", ""} {
+		tc(fmt.Sprintf("msg-literal-%d", k), nl(1), nl(2), sl(m))
+		tc(fmt.Sprintf("msg-literal-pass-%d", k), nl(2), nl(2), sl(m))
+	}
+	tc("msg-fmt-percent", sl("a"), sl("b"), sl("100%% of %v"), nl(2))
+	stmt("test msg-two-failures", gen.CallStmt{C: call("test", gen.TNone, toAny(nl(1)), toAny(nl(2)), toAny(sl("first 50%")))}, gen.CallStmt{C: call("test", gen.TNone, toAny(gen.BoolLit{V: false}))},
+		gen.CallStmt{C: call("test", gen.TNone, toAny(sl("x")), toAny(sl("y")), toAny(sl("third %v")), toAny(arrLit(tArrN, nl(1))))})
 	tc("arrays-eq", arrLit(tArrN, nl(1), nl(2)), arrLit(tArrN, nl(1), nl(2)))
 	tc("arrays-ne", arrLit(tArrN, nl(1), nl(2)), arrLit(tArrN, nl(2), nl(1)))
 	tc("want-specific-got-any", arrLit(tArrAN, arrLit(tArrN, nl(1))), vr("ean", tArrA))
 	tc("maps-order", gen.MapLit{T: tMapN, Keys: []string{"a", "b"}, Vals: []gen.Expr{nl(1), nl(2)}}, gen.MapLit{T: tMapN, Keys: []string{"b", "a"}, Vals: []gen.Expr{nl(2), nl(1)}})
 	tc("empty-arrays", gen.Slice{X: arrLit(tArrN, nl(1)), Lo: nl(1)}, gen.Slice{X: arrLit(tArrS, sl("x")), Lo: nl(1)})
 	// err / errmsg protocol sequences
-	seqs := [][]string{{"x", "1"}, {"1", "x"}, {"x", "y", "2"}, {"1", "2"}, {"x", "B:true"}, {"B:nope", "1"}, {"B:t", "x", "B:false"}, {"E", "1"}, {"x", "E", "x"}}
+	seqs := [][]string{{"M", "1"}, {"x", "F", "1"}, {"E", "F", "B:true"}, {"M", "B:false"}, {"x", "F", "y"}, {"M", "x", "F", "1", "M"}, {"x", "1"}, {"1", "x"}, {"x", "y", "2"}, {"1", "2"}, {"x", "B:true"}, {"B:nope", "1"}, {"B:t", "x", "B:false"}, {"E", "1"}, {"x", "E", "x"}}
 	for _, sq := range seqs {
 		var ss []gen.Stmt
 		for k, s := range sq {
 			name := fmt.Sprintf("c%d", k)
 			switch {
+			case s == "M": // message without error flag
+				ss = append(ss, gen.Assign{Target: vr("errmsg", tStr), Val: sl("stale")})
+			case s == "F": // the caller clears the flag only (documented convention: the flag is what is tested)
+				ss = append(ss, gen.Assign{Target: vr("err", tBool), Val: gen.BoolLit{V: false}})
 			case s == "E":
 				ss = append(ss, gen.Assign{Target: vr("err", tBool), Val: gen.BoolLit{V: true}}, gen.Assign{Target: vr("errmsg", tStr), Val: sl("mine")})
 			case strings.HasPrefix(s, "B:"):
